@@ -324,6 +324,14 @@ fn c08_invariant(pre: &(Files, Files, Files), fin: &(Files, Files, Files), st: &
             }
         }
     }
+    // a path that exists before the run and after an uninterrupted run must exist at every instant in between
+    for (side, pre_t, fin_t, cur) in [("A", pa, &fin.0, &st.0), ("B", pb, &fin.1, &st.1)] {
+        for p in pre_t.keys().filter(|p| !is_staging(p)) {
+            if fin_t.contains_key(p) && !cur.contains_key(p) {
+                return Some(("path_missing".into(), format!("side {side} path {p} existed before the run, exists after an uninterrupted run, and is ABSENT in this crash state")));
+            }
+        }
+    }
     // archive: old, absent or new
     let old = archive_main(ph).map(|x| x.1.clone());
     let new = archive_main(&fin.2).map(|x| x.1.clone());
